@@ -545,6 +545,21 @@ def r_samples_voxel(rule, root=None):
             rule.ok("normal evaluation seeds %s with its own unit axis at the surface voxel" % arr)
         else:
             rule.bad("samples|voxel|seed|%s" % arr, "the gradient seed for %s must be %s" % (arr, f), A.where(fn))
+    # the k-th gradient sample belongs to the pixel whose offset sits in slot k: seeds and the remembered
+    # offset are written at the same running index, which then advances by one, and the results are read
+    # back in step with those slots
+    mo = t.fmatch("self.out[$O].depth=$Z;")
+    slot = t.fmatch("self.scratch.columns[grad]=$O;", bind=mo) if mo is not None else None
+    back = (
+        t.fmatch("for($K,$P)inself.scratch.columns[0..grad].iter().enumerate(){let$G=out[$K];self.out[*$P].normal=") is not None
+        or t.fmatch("for($K,$P)inself.scratch.columns[..grad].iter().enumerate(){let$G=out[$K];self.out[*$P].normal=") is not None
+        or t.fmatch("for($P,$G)inself.scratch.columns[..grad].iter().zip(out.iter()){self.out[*$P].normal=") is not None
+        or t.fmatch("for($P,$G)inself.scratch.columns[0..grad].iter().zip(out.iter()){self.out[*$P].normal=") is not None
+    )
+    if slot is not None and "(grad+=1);" in t and back:
+        rule.ok("the k-th gradient result is stored in the pixel whose offset was remembered in slot k")
+    else:
+        rule.bad("samples|voxel|normal-slot", "the pixel offset of a surface voxel must be remembered at the same running index as its gradient seeds (`columns[grad] = o; grad += 1`) and the normals written back in step with those slots", A.where(fn))
     if t.fmatch("self.out[*$O].normal=[$G.dx,$G.dy,$G.dz];") is not None or t.fmatch("self.out[$O].normal=[$G.dx,$G.dy,$G.dz];") is not None:
         rule.ok("normals are read as (dx, dy, dz)")
     else:
